@@ -203,7 +203,7 @@ PROPS['C08'] = dict(
     level_text='bounded stand-in: content of 0..4 bytes (every value), every chunk schedule whose first chunk is empty or >= 3 bytes, one Interrupted result: the detected encoding is from_bom(content) and exactly the BOM bytes are consumed. Line assembly (read_line) independence from chunking: bounded harnesses of C10 explore every schedule for <= 4 bytes',
     level_note='known finding D5: a first chunk of 1 or 2 bytes is consumed and lost (reported on a KNOWN-FINDING line, witness harness c08_read_bom_short_first_chunk). from_path / File and longer streams are not decided',
     verus=[], kani=['decoder.kc'],
-    only_prefix=['c08_'],
+    only_prefix=['c08_', 'c10_read_line_utf16le', 'c10_read_line_utf8'],
     kani_functions=['src/reader/decoder.rs :: impl Decoder :: fn new', 'src/reader/decoder.rs :: impl Decoder :: fn read_bom'],
     explanation='see level_text', trusted_base=_READER_TRUST, assumptions=[], not_decided=['from_path / BufReader<File>', 'streams longer than the bound'],
 )
@@ -214,7 +214,7 @@ PROPS['C09'] = dict(
     level_text='bounded stand-in, reader side only: a non-transient error injected at any of the first fill_buf calls is returned by Decoder::new / read_line with its kind (never Ok, never a panic); Interrupted during BOM sniffing is retried',
     level_note='writer faults are not decided (executing encode needs core::fmt); driver-level propagation (`?` in parse_version / parse_first_section / parse_section) is syntactic and only exercised in the thorough-tier driver harnesses',
     verus=[], kani=['decoder.kc'],
-    only_prefix=['c09_'],
+    only_prefix=['c09_', 'c10_read_line_utf16le'],
     kani_functions=['src/reader/decoder.rs :: impl Decoder :: fn new', 'src/reader/decoder.rs :: impl Decoder :: fn read_bom', 'src/reader/decoder.rs :: impl Decoder :: fn read_line'],
     explanation='see level_text', trusted_base=_READER_TRUST, assumptions=[], not_decided=['writer side (encode)', 'error kinds other than the injected representative'],
 )
